@@ -9,7 +9,7 @@
 System python3 only, no third-party imports.  Nothing here draws random numbers:
 every choice is made inside the engines from (VERIF_SEED, engine, run index).
 """
-import hashlib, json, os, re, shutil, subprocess, sys, threading, time, copy, glob, queue
+import hashlib, json, os, re, shutil, signal, subprocess, sys, threading, time, copy, glob, queue
 
 VERIF = os.path.dirname(os.path.abspath(__file__))
 REPO = os.environ.get("VERIF_REPO", "/repo")
@@ -57,6 +57,13 @@ ENGINES = {
         "link": ASAN,
     },
 }
+
+def kill_group(p):
+    """Kill a worker together with the children it forked (fork-per-run engines): a hung grandchild would keep the pipes open."""
+    try: os.killpg(p.pid, signal.SIGKILL)
+    except (ProcessLookupError, PermissionError, OSError):
+        try: p.kill()
+        except Exception: pass
 
 def log(*a):
     print(*a, file=sys.stderr, flush=True)
@@ -210,7 +217,7 @@ class Worker:
             if resume_sub: cmd += ["--resume-sub", str(resume_sub)]
             errpath = os.path.join(self.outdir, "w%d.err" % self.wid)
             with open(errpath, "wb") as ef:
-                p = subprocess.Popen(cmd, stdout=subprocess.PIPE, stderr=ef, text=True, errors="replace", bufsize=1)
+                p = subprocess.Popen(cmd, stdout=subprocess.PIPE, stderr=ef, text=True, errors="replace", bufsize=1, start_new_session=True)
                 last_idx, last_sub, finished = None, 0, False
                 last_progress = [time.time()]
                 killed = [False]
@@ -218,7 +225,7 @@ class Worker:
                     while p.poll() is None:
                         if time.time() - last_progress[0] > self.timeout or time.time() > deadline + 5:
                             killed[0] = True
-                            p.kill(); return
+                            kill_group(p); return
                         time.sleep(0.5)
                 wt = threading.Thread(target=watchdog, daemon=True); wt.start()
                 for line in p.stdout:
@@ -278,13 +285,12 @@ class Server:
         self.errpath = os.path.join(outdir, "serve.err")
     def _start(self):
         self.ef = open(self.errpath, "wb")
-        self.p = subprocess.Popen([self.exe, "serve"], stdin=subprocess.PIPE, stdout=subprocess.PIPE, stderr=self.ef, text=True, errors="replace", bufsize=1)
+        self.p = subprocess.Popen([self.exe, "serve"], stdin=subprocess.PIPE, stdout=subprocess.PIPE, stderr=self.ef, text=True, errors="replace", bufsize=1, start_new_session=True)
     def close(self):
         if self.p:
             try: self.p.stdin.close()
             except Exception: pass
-            try: self.p.kill()
-            except Exception: pass
+            kill_group(self.p)
             self.p.wait(); self.p = None
             self.ef.close()
     def run(self, plan, timeout=None):
@@ -299,7 +305,10 @@ class Server:
             self.p.stdin.write(json.dumps(plan) + "\n"); self.p.stdin.flush()
         sub = 0
         published = None
-        timer = threading.Timer(timeout, lambda: self.p.kill())
+        timed_out = [False]
+        def on_timeout():
+            timed_out[0] = True; kill_group(self.p)
+        timer = threading.Timer(timeout, on_timeout)
         timer.start()
         try:
             while True:
@@ -318,15 +327,19 @@ class Server:
         self.ef.close()
         err = open(self.errpath, "r", errors="replace").read()
         self.p = None
-        cls = classify_crash(rc, err)
+        cls = "timeout" if timed_out[0] else classify_crash(rc, err)
         return {"ok": False, "class": cls, "detail": crash_excerpt(err), "hash": 0, "plan": published or plan, "crash": True, "sub": sub}
 
 def fresh_replay(exe, path, timeout=300):
     """Execute a replay file in a fresh process; returns (class or None, detail)."""
+    p = subprocess.Popen([exe, "replay", path], stdout=subprocess.PIPE, stderr=subprocess.PIPE, text=True, errors="replace", start_new_session=True)
     try:
-        r = subprocess.run([exe, "replay", path], stdout=subprocess.PIPE, stderr=subprocess.PIPE, text=True, timeout=timeout)
+        out, err = p.communicate(timeout=timeout)
     except subprocess.TimeoutExpired:
+        kill_group(p); p.wait()
         return "timeout", ""
+    class R: pass
+    r = R(); r.stdout, r.stderr, r.returncode = out, err, p.returncode
     for line in r.stdout.splitlines():
         if line[:1] == "R":
             d = json.loads(line[2:])
@@ -473,7 +486,7 @@ CHECKS = {
     "C05": dict(level="exploration", parts=[("iosim", "c05", 14000, 500000)], cap=(600, 3000), timeout=120),
     "C10": dict(level="exploration", parts=[("iosim", "c10", 1400, 14000), ("stacksim", "stack", 264, 1056)], cap=(600, 3000), timeout=300),
     "C15": dict(level="fault_enumeration", parts=[("patchsim", "c15", 2400, 120000)], cap=(600, 3000), timeout=120),
-    "C20": dict(level="exploration", parts=[("threadsim", "c20", 2400, 80000)], cap=(600, 3000), timeout=300),
+    "C20": dict(level="exploration", parts=[("threadsim", "c20", 2400, 80000)], cap=(600, 3000), timeout=60),
     "C19": dict(level="fault_enumeration", parts=[("allocsim", "all", 1083 + 60 * 80, 1083 + 60 * 1500)], cap=(600, 3000), timeout=120),
 }
 
